@@ -1,8 +1,12 @@
 SPECIFICATION Spec
 CONSTANTS Sizes <- SizeCatalogue
+ MaxVac = 0
  Dim3 = FALSE
 INVARIANT NoOverride
 INVARIANT Complete
+INVARIANT CompleteIdeal
+INVARIANT WindingSound
+INVARIANT WindingRankSound
 INVARIANT EachAtomOnce
 INVARIANT WindingExact
 INVARIANT WindingRankExact
